@@ -3,7 +3,8 @@
    truncates the rank before the maximum): the full statement is proved, for every
    index/rank function (hence every hash), every register count, every history. *)
 From GX.Model Require Import Base HLL.
-From GX.Proofs Require Import ListLemmas HLLProofs HLLApi.
+From GX.Model Require Import Redis RedisHLL.
+From GX.Proofs Require Import ListLemmas HLLProofs HLLApi RedisHLLRefine.
 
 Section Mem.
 Variable hic : N -> bytes -> N * N.
@@ -63,6 +64,27 @@ Example C06_witness_now_order_independent : exists s,
   nth 17 (regs_of (upd_all (hic_of w_hash) s [[1]; [2]])) 0 = 200.
 Proof. eexists; split; [reflexivity|]. vm_compute. split; reflexivity. Qed.
 
+(* Redis-backed variant, through the register refinement of Proofs/RedisHLLRefine.v: while the
+   Redis list holds the decimal strings of the in-memory registers (hrefines), the update script
+   and the merge script lead to the list that represents the registers after the in-memory Update
+   / Merge - so the Redis register state depends only on the set of elements inserted, and merge
+   is the sketch of the union, exactly as proved above for the in-memory variant. (An index past
+   the registers is a panic in memory and a script error in Redis: the m <= 64 finding of C05.) *)
+Theorem C06_redis_update_refines : forall hic s h mh x,
+  hrefines s h mh -> fst (hic (h_p mh) x) < 256 ->
+  match hll_update hic mh x with
+  | Ok mh' => exists s', rhll_update hic s h x = (Ok tt, s') /\ hrefines s' h mh'
+  | Panic _ => rhll_update hic s h x = (Err E_GENERIC, s)
+  | Err _ => False
+  end.
+Proof. exact hll_update_refines. Qed.
+
+Theorem C06_redis_merge_refines : forall s a b ma mb,
+  hrefines s a ma -> hrefines s b mb -> rh_key a <> rh_key b -> h_m ma = h_m mb ->
+  exists s' m, hll_merge ma mb = Ok m /\ rhll_merge s a b = (Ok tt, s') /\
+               hrefines s' a m /\ hrefines s' b mb.
+Proof. exact hll_merge_refines. Qed.
+
 Print Assumptions C06_mem_state_depends_on_set_only.
 Print Assumptions C06_mem_merge_is_union.
 Print Assumptions C06_mem_merge_then_update.
@@ -71,3 +93,5 @@ Print Assumptions C06_mem_merge_comm.
 Print Assumptions C06_mem_merge_idem.
 Print Assumptions C06_merge_mismatch_rejected.
 Print Assumptions C06_reachable_wf.
+Print Assumptions C06_redis_update_refines.
+Print Assumptions C06_redis_merge_refines.
